@@ -107,6 +107,11 @@ func build(kinds []string, actions [][]int) (revs []pdffile.Revision, final []ob
 			{Key: []byte("Root"), Val: pdfsyn.RefV(1, 0)},
 			{Key: []byte("ACME_Rev"), Val: pdfsyn.StrV(fmt.Sprintf("revision %d", ri))},
 		}
+		if ri == 0 && len(kinds) > 1 {
+			// an entry that only the oldest trailer carries: the newest revision's
+			// trailer is the one that counts, so it must not be reported
+			rev.Trailer = append(rev.Trailer, pdfsyn.Entry{Key: []byte("ACME_OnlyInOldest"), Val: pdfsyn.IntV(1)})
+		}
 		if ri > 0 && len(rev.Objs) == 0 {
 			// an incremental update that changes nothing is legal; keep it
 		}
@@ -225,6 +230,9 @@ func judge(file []byte, final []objState, kinds []string, k pdffile.Knobs) *fail
 	want := pdf.String(fmt.Sprintf("revision %d", len(kinds)-1))
 	if got := r.GetMeta().Trailer["ACME_Rev"]; !hx.Equal(got, want) {
 		return &failure{"trailer-not-newest:" + tag, fmt.Sprintf("trailer /ACME_Rev = %s, want %s", hx.Show(got), hx.Show(want))}
+	}
+	if got := r.GetMeta().Trailer["ACME_OnlyInOldest"]; got != nil {
+		return &failure{"trailer-entry-from-older-revision:" + tag, fmt.Sprintf("trailer reports /ACME_OnlyInOldest = %s, which only the oldest revision's trailer contains", hx.Show(got))}
 	}
 	if r.GetMeta().Catalog == nil || r.GetMeta().Catalog.Pages != pdf.NewReference(2, 0) {
 		return &failure{"catalog:" + tag, "catalog not read from the trailer's /Root"}
